@@ -217,6 +217,7 @@ PROPS = {
             {"name": "lin-tween", "quick": 10000, "thorough": 150000, "thorough_time": 40, "extra": ["-sim.only=lost-update,write-hangs,get-failed,panic,internal-panic"]},
             {"name": "lin-hail", "quick": 10000, "thorough": 500000, "thorough_time": 40},
             {"name": "lin-delta", "quick": 10000, "thorough": 500000, "thorough_time": 40},
+            {"name": "lin-waste", "quick": 4000, "thorough": 100000, "thorough_time": 40},
             {"name": "lin-servers", "quick": 20000, "thorough": 1000000, "thorough_time": 80},
         ],
         "require_hits": ["resource.gau.commit", "collection.delete.commit", "value.publish", "collection.publish"],
